@@ -31,6 +31,9 @@
 (*   "EOFNotDelim"   the marker at the very end of the content is not      *)
 (*                   recognised (PSEOF inside the matcher): the image and  *)
 (*                   everything behind it is lost                          *)
+(*   "IDSkipsCRLF"   ID + CR + data beginning with LF: the LF is skipped   *)
+(*                   with the CR as if it were an end-of-line pair (not in *)
+(*                   the code; a seeded change)                            *)
 (*   "BareNameNoFilter" /F /A85 (a name, not an array) is taken for "no    *)
 (*                   filter": the ASCII85 end marker ~> is not used and    *)
 (*                   ASCII85 text holding EI + white space is cut there    *)
@@ -46,7 +49,8 @@
 EXTENDS PSLexOps, TLC, Json
 LOCAL SeqX == INSTANCE SequencesExt
 
-CONSTANTS Leads,        \* sequences of lengths of the streams of the /Contents array that precede the one holding BI
+CONSTANTS IDDelims,     \* the white-space byte written after ID
+          Leads,        \* sequences of lengths of the streams of the /Contents array that precede the one holding BI
           Alphabet,     \* bytes the image data is made of
           MaxLen,       \* data strings of length 0..MaxLen
           BufSizes,     \* PDFContentParser.BUFSIZ
@@ -74,15 +78,17 @@ Pre(dk) == PreBase \o FPart(dk) \o <<32, 73, 68>>           \* ... ID
 IsA85Kind(dk) == dk \in {"A85", "ASCII85Decode", "A85Fl", "A85Arr"}   \* the OUTER encoding (first filter) is ASCII85
 Term(dk, style) == (IF IsA85Kind(dk) THEN A85END ELSE <<>>) \o (IF style = "eol" \/ IsA85Kind(dk) THEN <<bLF>> ELSE <<>>) \o EI
 
-VARIABLES data, dk, style, foll, B, cut, dev, lead, \* the case
+VARIABLES data, dk, style, foll, B, cut, dev, lead, idws, \* the case
           C, cp, ptoks,                            \* derived once: the content bytes, the cut offset, the tokens of `BI ... ID `
           phase, ti, ops, inl, arr,                \* dictionary phase: token index, operand stack, start marks
           tg, p, e, mi, acc,                       \* matcher: target, read position, buffer end, index i, collected bytes
           img, rest                                \* results: captured data, the tokens that follow
-vars == <<data, dk, style, foll, B, cut, dev, lead, C, cp, ptoks, phase, ti, ops, inl, arr, tg, p, e, mi, acc, img, rest>>
+vars == <<data, dk, style, foll, B, cut, dev, lead, idws, C, cp, ptoks, phase, ti, ops, inl, arr, tg, p, e, mi, acc, img, rest>>
 
 \* ------------------------------------------------------------------ the content and its division into streams
-Head1 == Pre(dk) \o <<bSP>>
+\* ISO 32000-1 8.9.7: exactly one white-space character follows ID (idws: SP, LF, CR or TAB); the data begin right after it,
+\* whatever their first byte is - a CR followed by data that begin with LF is NOT an end-of-line pair to be skipped
+Head1 == Pre(dk) \o <<idws>>
 Written == data \o Term(dk, style)                  \* what the writer put between `ID ` and the followers
 Content == Head1 \o Written \o foll
 LenPre == Len(Pre(dk))
@@ -132,14 +138,17 @@ IDTokPos == PreToks[Len(PreToks)].pos
 \* positions are accumulated over the streams ("CumulativeBufpos": bufpos += len(buf) instead of fp.tell()).
 RECURSIVE SumSeq(_)
 SumSeq(q) == IF q = <<>> THEN 0 ELSE Head(q) + SumSeq(Tail(q))
-SeekTarget(d) == IF "CumulativeBufpos" \in d THEN Min(StreamBase(LenPre) + IDTokPos + 3 + SumSeq(lead), Len(C))
+\* ("IDSkipsCRLF", a seeded change: CR LF behind ID is skipped as a pair)
+SkipPair(d) == IF "IDSkipsCRLF" \in d /\ idws = bCR /\ Len(C) > LenPre + 1 /\ C[LenPre + 2] = bLF THEN 1 ELSE 0
+SeekTarget(d) == IF "IDSkipsCRLF" \in d THEN IDTokPos + 3 + SkipPair(d)
+                 ELSE IF "CumulativeBufpos" \in d THEN Min(StreamBase(LenPre) + IDTokPos + 3 + SumSeq(lead), Len(C))
                  ELSE IF "SeekOtherStream" \in d
                  THEN Min(StreamBase(LenPre) + (IDTokPos - StreamBase(IDTokPos)) + 3, Len(C))   \* past the end: nothing to read
                  ELSE IDTokPos + 3
 
 \* ------------------------------------------------------------------ initial states
 \* (the prefix tokens depend on the dictionary spelling only: they are computed once per spelling, before the rest is enumerated)
-InitCase == /\ dk \in DictKinds /\ ptoks = RefOut(Head1, {})
+InitCase == /\ dk \in DictKinds /\ idws \in IDDelims /\ ptoks = RefOut(Head1, {})
             /\ B \in BufSizes /\ style \in Styles /\ foll \in Followers /\ cut \in Cuts /\ dev \in DevChoices /\ lead \in Leads
             /\ \E n \in 0..MaxLen : data \in [1..n -> Alphabet]
             /\ CutOK /\ (IsA85Kind(dk) => style = "eol")
@@ -156,12 +165,12 @@ Init == /\ InitCase
 DS == [ti |-> ti, ops |-> ops, inl |-> inl, arr |-> arr]
 ADictTok == /\ phase = "dict" /\ ~AtID(DS)
             /\ LET s == DictStep(DS) IN ti' = s.ti /\ ops' = s.ops /\ inl' = s.inl /\ arr' = s.arr
-            /\ UNCHANGED <<data, dk, style, foll, B, cut, dev, lead, C, cp, ptoks, phase, tg, p, e, mi, acc, img, rest>>
+            /\ UNCHANGED <<data, dk, style, foll, B, cut, dev, lead, idws, C, cp, ptoks, phase, tg, p, e, mi, acc, img, rest>>
 AID == /\ phase = "dict" /\ AtID(DS)
        /\ LET objs == InlineObjs(ops, inl) IN
           IF Len(objs) % 2 # 0 THEN phase' = "typeerror" /\ UNCHANGED <<tg, p, e>>
           ELSE phase' = "scan" /\ tg' = TargetOf(objs) /\ p' = SeekTarget(dev) /\ e' = SeekTarget(dev)
-       /\ UNCHANGED <<data, dk, style, foll, B, cut, dev, lead, C, cp, ptoks, ti, ops, inl, arr, mi, acc, img, rest>>
+       /\ UNCHANGED <<data, dk, style, foll, B, cut, dev, lead, idws, C, cp, ptoks, ti, ops, inl, arr, mi, acc, img, rest>>
 
 \* ------------------------------------------------------------------ get_inline_data
 Scanning == phase = "scan" /\ mi <= Len(tg)
@@ -169,19 +178,19 @@ AtEOF == p >= e /\ e >= Len(C)
 \* fillbuf(): the buffer never spans two streams; an exhausted stream is followed by the next one
 AMRefill == /\ Scanning /\ p >= e /\ e < Len(C)
             /\ p' = e /\ e' = Min(e + B, StreamEnd(e))
-            /\ UNCHANGED <<data, dk, style, foll, B, cut, dev, lead, C, cp, ptoks, phase, ti, ops, inl, arr, tg, mi, acc, img, rest>>
+            /\ UNCHANGED <<data, dk, style, foll, B, cut, dev, lead, idws, C, cp, ptoks, phase, ti, ops, inl, arr, tg, mi, acc, img, rest>>
 AMFind == /\ Scanning /\ mi = 0 /\ p < e
           /\ LET j == First(C, p, e, {tg[1]}) IN
              IF j < e THEN acc' = acc \o Slice(C, p, j + 1) /\ p' = j + 1 /\ mi' = 1
              ELSE acc' = acc \o Slice(C, p, e) /\ p' = e /\ mi' = 0
-          /\ UNCHANGED <<data, dk, style, foll, B, cut, dev, lead, C, cp, ptoks, phase, ti, ops, inl, arr, tg, e, img, rest>>
+          /\ UNCHANGED <<data, dk, style, foll, B, cut, dev, lead, idws, C, cp, ptoks, phase, ti, ops, inl, arr, tg, e, img, rest>>
 AMChar == /\ Scanning /\ mi > 0 /\ p < e
           /\ LET c == C[p + 1] IN
              /\ acc' = Append(acc, c) /\ p' = p + 1
              /\ mi' = IF (mi >= Len(tg) /\ c \in SPACES) \/ (mi < Len(tg) /\ c = tg[mi + 1]) THEN mi + 1
                       ELSE IF "NoRestart" \notin dev /\ c = tg[1] THEN 1      \* the mismatching byte may itself begin the marker
                       ELSE 0
-          /\ UNCHANGED <<data, dk, style, foll, B, cut, dev, lead, C, cp, ptoks, phase, ti, ops, inl, arr, tg, e, img, rest>>
+          /\ UNCHANGED <<data, dk, style, foll, B, cut, dev, lead, idws, C, cp, ptoks, phase, ti, ops, inl, arr, tg, e, img, rest>>
 
 \* the trailing-EOL pattern  re.sub(rb"(\x0d\x0a|[\x0d\x0a])$", b"", data)  with its two quirks as switches;
 \* the intended design removes exactly one end-of-line character
@@ -200,14 +209,14 @@ Finish(body) ==
   /\ phase' = "resume"
 AMFinish == /\ phase = "scan" /\ mi > Len(tg)
             /\ Finish(SubSeq(acc, 1, Len(acc) - (Len(tg) + 1)))
-            /\ UNCHANGED <<data, dk, style, foll, B, cut, dev, lead, C, cp, ptoks, ti, ops, inl, arr, tg, p, e, mi, acc, rest>>
+            /\ UNCHANGED <<data, dk, style, foll, B, cut, dev, lead, idws, C, cp, ptoks, ti, ops, inl, arr, tg, p, e, mi, acc, rest>>
 \* end of the last stream while scanning: fillfp raises PSEOF, which ends the page's interpretation.
 \* Intended: the end of the content delimits a complete marker like white space does.
 AMEof == /\ Scanning /\ AtEOF
          /\ IF mi = Len(tg) /\ "EOFNotDelim" \notin dev
             THEN Finish(SubSeq(acc, 1, Len(acc) - Len(tg)))
             ELSE phase' = "eof" /\ UNCHANGED img
-         /\ UNCHANGED <<data, dk, style, foll, B, cut, dev, lead, C, cp, ptoks, ti, ops, inl, arr, tg, p, e, mi, acc, rest>>
+         /\ UNCHANGED <<data, dk, style, foll, B, cut, dev, lead, idws, C, cp, ptoks, ti, ops, inl, arr, tg, p, e, mi, acc, rest>>
 
 \* tokenising resumes in the main state right behind the marker's delimiter (seek() reset the tokenizer);
 \* for ASCII85 the keyword EI is still in the stream and is tokenised like any operator
@@ -218,7 +227,7 @@ AResume == /\ phase = "resume"
                   r == Run(s0, C, B, {}) IN
               rest' = (IF tg = EI THEN <<[k |-> "kw", v |-> EI]>> ELSE <<>>) \o KV(r.out)
            /\ phase' = "done"
-           /\ UNCHANGED <<data, dk, style, foll, B, cut, dev, lead, C, cp, ptoks, ti, ops, inl, arr, tg, p, e, mi, acc, img>>
+           /\ UNCHANGED <<data, dk, style, foll, B, cut, dev, lead, idws, C, cp, ptoks, ti, ops, inl, arr, tg, p, e, mi, acc, img>>
 
 Next == ADictTok \/ AID \/ AMRefill \/ AMFind \/ AMChar \/ AMFinish \/ AMEof \/ AResume
 Spec == Init /\ [][Next]_vars
@@ -265,6 +274,6 @@ DictWellFormed == phase # "typeerror"
 
 EmitTerminal ==
   Terminal => PrintT("@@" \o ToJson([data |-> data, dk |-> dk, style |-> style, foll |-> foll, B |-> B, cut |-> cut,
-                                       cutpos |-> cp, lead |-> lead, dev |-> dev, phase |-> phase, img |-> img, rest |-> rest,
+                                       cutpos |-> cp, lead |-> lead, idws |-> idws, dev |-> dev, phase |-> phase, img |-> img, rest |-> rest,
                                        content |-> C, indomain |-> InDomain, a85 |-> (tg = A85END)]))
 =============================================================================
